@@ -117,3 +117,8 @@ func init() {
 		},
 	})
 }
+
+func init() {
+	c := fw.Lookup("C01")
+	c.Phases = append(c.Phases, sqlExtraPhases(evalC01Traced, false)...)
+}
